@@ -28,9 +28,11 @@ func init() {
 
 func runC08(p *Prog, r *Report) {
 	c08R1(p, r)
-	c08R2(p, r)
+	c08R2(p, r, "C08.R2")
 	c08R3(p, r)
 	c05R2(p, r, "C08.R4", []string{"builder.(*Enum).Build"})
+	pkgLevelStateRule(p, r, "C08.R5")
+	armStoresRule(p, r, "C08.R6", "config.parseMethodLine", "enum:map", "enum:transform")
 }
 
 func c08R1(p *Prog, r *Report) {
@@ -161,8 +163,8 @@ func c08R1(p *Prog, r *Report) {
 	}
 }
 
-func c08R2(p *Prog, r *Report) {
-	r.Rule("C08.R2", "totality: enum.Detect's member loop stores every constant whose type is identical to the enum type (the only filters are the *types.Const assertion and types.Identical); SortedMembers appends every key; Enum.Build ranges over SortedMembers(), every iteration appends a case or (for a duplicate value with an equal target) a skip-comment, `enum:unknown == \"\"` is an error, jen.Default() is appended before the switch is emitted, a mapped target must exist, and the target name is looked up in enum:map, then transformers, then taken from the source name", 7)
+func c08R2(p *Prog, r *Report, id string) {
+	r.Rule(id, "totality: enum.Detect's member loop stores every constant whose type is identical to the enum type (the only filters are the *types.Const assertion and types.Identical); SortedMembers appends every key; Enum.Build ranges over SortedMembers(), every iteration appends a case or (for a duplicate value with an equal target) a skip-comment, `enum:unknown == \"\"` is an error, jen.Default() is appended before the switch is emitted, a mapped target must exist, and the target name is looked up in enum:map, then transformers, then taken from the source name", 7)
 	// Detect
 	if fi := p.Func("enum.Detect"); fi != nil {
 		info := fi.Pkg.TypesInfo
